@@ -1,6 +1,7 @@
 package search
 
 import (
+	"encoding/json"
 	"bytes"
 	"context"
 	"fmt"
@@ -198,6 +199,32 @@ func getCorpus(id int) *sCorpus {
 	}
 	// layout
 	layout := rng.IntN(4)
+	// the shard images are shared between worker processes through the per-tree
+	// image cache (building them costs several seconds of ShardBuilder set-up)
+	cacheFile := ""
+	if d := os.Getenv("VERIF_IMGCACHE"); d != "" {
+		os.MkdirAll(filepath.Join(d, "corpus"), 0o755)
+		cacheFile = filepath.Join(d, "corpus", fmt.Sprintf("%d.json", id))
+		if bs, err := os.ReadFile(cacheFile); err == nil {
+			var shards []*sImage
+			if json.Unmarshal(bs, &shards) == nil && len(shards) > 0 {
+				c.Shards = shards
+				c.Split = layout == 2
+				corpusCache[id] = c
+				return c
+			}
+		}
+	}
+	defer func() {
+		if cacheFile != "" && len(c.Shards) > 0 {
+			if bs, err := json.Marshal(c.Shards); err == nil {
+				tmp := fmt.Sprintf("%s.%d.tmp", cacheFile, os.Getpid())
+				if os.WriteFile(tmp, bs, 0o644) == nil {
+					os.Rename(tmp, cacheFile)
+				}
+			}
+		}
+	}()
 	simple := map[int]*sImage{}
 	for i, r := range c.Repos {
 		simple[i] = buildSimple(r, r.Docs, 0)
